@@ -168,6 +168,51 @@ def run_dense(spec, ctx):
     ctx.sample({"e": e, "M_from": lo, "M_to": hi, "step": step})
 
 
+# -- the quadrant seams of the anomaly formulas: true anomaly +-90 deg (cos E = e), E = +-90 deg ---------------
+
+def quadrant_cases():
+    """Mean anomalies at which the true anomaly is exactly +-90 degrees (cos E = e, where a formula for v written
+    with cos v in a denominator has to decide a quadrant) or the eccentric anomaly +-90 degrees, for 400
+    eccentricities, with the 8 neighbouring floats on each side and +-1e-9 .. 1e-6 degree."""
+    out = []
+    for k in range(400):
+        e = 0.0025 * k + 0.00123
+        if e >= 0.999:
+            continue
+        E1 = math.acos(e)
+        m_v90 = math.degrees(E1 - e * math.sin(E1))            # v = 90
+        m_e90 = math.degrees(math.pi / 2.0 - e)                 # E = 90
+        for m0 in (m_v90, -m_v90, m_e90, -m_e90, 360.0 - m_v90):
+            vals = [m0]
+            up = dn = m0
+            for _ in range(8):
+                up = math.nextafter(up, math.inf)
+                dn = math.nextafter(dn, -math.inf)
+                vals += [up, dn]
+            vals += [m0 + d for d in (1e-9, -1e-9, 1e-6, -1e-6)]
+            out.append((e, vals))
+    # eccentricities for which a round true anomaly w has cos w = -e .. e exactly as computed from w itself
+    for w in range(5, 180, 5):
+        e = abs(math.cos(math.radians(w)))
+        if 0.0 < e < 0.999:
+            E1 = math.acos(e)
+            m0 = math.degrees(E1 - e * math.sin(E1))
+            out.append((e, [m0, -m0, math.nextafter(m0, 0), -math.nextafter(m0, 0), 360.0 - m0]))
+    return out
+
+
+def run_quadrants(block, ctx):
+    for e, ms in block:
+        for m in ms:
+            ctx.evals += 1
+            for site, msg, dev in check_kepler(e, m):
+                ctx.viol({"e": e, "M": m}, msg, dev=dev, site="quadrant_" + site)
+        ctx.nt_count += 1
+        ctx.outcome(round(e, 2))
+    ctx.obs(block[0][0], block[-1][0])
+    ctx.sample({"e": block[0][0], "M": block[0][1][0]})
+
+
 # -- speeds, length, phase -------------------------------------------------------
 
 AXES = [0.3, 1.0, 17.94, 100.0]
@@ -397,6 +442,15 @@ def node_cases():
                     out.append({"kind": "elliptic", "omega": w, "e": e, "a": a, "ascending": asc})
             for q in (0.1, 0.5871018, 1.0, 1.324502, 30.0):
                 out.append({"kind": "parabolic", "omega": w, "q": q, "ascending": asc})
+    # nodes exactly at r = a (cos v = -e, where a formula for E written with cos E in a denominator has to decide
+    # a quadrant): eccentricity taken from a round angle, argument of perihelion that angle and its reflections
+    for wdeg in range(95, 270, 5):
+        e = abs(math.cos(math.radians(float(wdeg))))
+        if not (0.0 < e < 0.999):
+            continue
+        for w in (float(wdeg), 360.0 - wdeg, (wdeg + 180.0) % 360.0, (180.0 - wdeg) % 360.0):
+            for asc in (True, False):
+                out.append({"kind": "elliptic", "omega": w, "e": e, "a": 1.0, "ascending": asc})
     return out
 
 
@@ -429,6 +483,8 @@ def clauses(tier):
                floor=1000),
         Clause("kepler_dense", dense_shards(tier), run_dense, lambda c: [m for _, m, _ in check_kepler(c["e"], c["M"])],
                floor=100000),
+        Clause("kepler_quadrants", chunks(quadrant_cases(), 32), run_quadrants,
+               lambda c: [m for _, m, _ in check_kepler(c["e"], c["M"])], floor=1000),
         Clause("kepler_sequence", chunks([{"e": e, "M": m, "d": d, "de": de} for e in ECCS for m in SEQ_M
                                           for d in SEQ_D for de in SEQ_DE], 16), run_kepler_seq,
                lambda c: [m for _, m, _ in check_kepler_seq(c)], floor=1000, shape="H"),
